@@ -248,6 +248,84 @@ def check_extra_operators(rep: Report, prog: Program, resolver: Resolver, rid: s
     return n
 
 
+def check_unit_with_quantity(rep: Report, prog: Program, resolver: Resolver, rid: str) -> int:
+    """R03.9: where a Unit operator itself accepts a Quantity or a number (instead of leaving it to the reflected operator of
+    Quantity), what it returns is the quantity dimensional analysis asks for: value val(self) x / : val(other), dimension the
+    product / quotient."""
+    n = 0
+    for attr, kind in (("__mul__", "mul"), ("__truediv__", "div"), ("__rmul__", "mul"), ("__rtruediv__", "rdiv")):
+        qual = f"Unit.{attr}"
+        if qual not in prog.functions:
+            continue
+        fi = prog.func(qual)
+        for args in default_arg_sets(prog, resolver, qual, "unit"):
+            me = args.get("self")
+            others = [v for k, v in args.items() if k != "self"]
+            other = others[0] if others else None
+            if not isinstance(me, UnitV) or not isinstance(other, (QuantV, NumV)):
+                continue
+            try:
+                run = run_function(prog, resolver, qual, LAYERS, args)
+            except Unsupported as e:
+                rep.defer(AnalysisError(f"{qual}: {e}"))
+                continue
+            vo, do = val(other), dim_of(other)
+            for o in run.outcomes:
+                if o.kind != "return" or isinstance(o.value, NotImpl):
+                    continue
+                got = o.value
+                key = f"{qual}[{type(other).__name__}]" + ("|" + "&".join(("" if v else "not ") + t for t, v in o.path) if o.path else "")
+                if not isinstance(got, QuantV):
+                    rep.defer(AnalysisError(f"{key} returns {describe(got)}: outside the interpreted subset"))
+                    continue
+                n += 1
+                vs = me.value()
+                want = {"mul": vs * vo, "div": vs / vo, "rdiv": vo / vs}[kind]          # type: ignore[operator]
+                wdim = {"mul": me.d.mul(do), "div": me.d.mul(do, -1), "rdiv": do.mul(me.d, -1)}[kind]   # type: ignore[union-attr,arg-type]
+                rep.check(rid, key, got.value() == ren_rat(want, o.ren) and got.unit.d.mono == wdim.mono,
+                          f"{qual} with a {'quantity' if isinstance(other, QuantV) else 'number'} returns a quantity worth {got.value()!r} of dimension "
+                          f"{got.unit.d.mono}; dimensional analysis requires {want!r} and {wdim.mono}", fi.where(o.node))
+    return n
+
+
+NUMBER_HOOKS = ("__float__", "__int__", "__index__", "__complex__", "__bool__")
+
+
+def check_number_hooks(rep: Report, prog: Program, rid: str) -> int:
+    """R03.10: `float(q)`, `int(q)`, `math.sqrt(q)` turn a quantity into a bare number; that is dimensional analysis only
+    for a dimensionless quantity.  The guard of such a hook is partially evaluated (the SignProbe of C05) on a dimensionless
+    vector and on two that are not - one whose exponents happen to sum to zero: it must raise on both of those."""
+    from .props.c05 import RAISED, SignProbe, _NoVerdict
+    n = 0
+    for cname in ("Quantity", "Level", "Measurement"):
+        ci = next((c for c in prog.classes.values() if c.name == cname and c.module == ""), None)
+        if ci is None:
+            continue
+        for hook in NUMBER_HOOKS:
+            q = ci.methods.get(hook)
+            if q is None or hook == "__bool__":
+                continue
+            fi = prog.func(q)
+            helpers = {nm: prog.functions[qq].node for nm, qq in prog.modules[""].functions.items() if qq in prog.functions}
+            for label, exps, must_raise in (("a dimensionless quantity", (0, 0, 0, 0), False), ("a length", (0, 1, 0, 0), True),
+                                            ("a speed (exponents +1 and -1)", (0, 1, -1, 0), True), ("a force (L M T^-2)", (0, 1, -2, 1), True)):
+                n += 1
+                sp = SignProbe(helpers, exps)  # type: ignore[arg-type]
+                try:
+                    done, value = sp.block(fi.node.body, {}, 0, record=False)  # type: ignore[attr-defined]
+                except _NoVerdict as ex:
+                    # the guard's outcome is what matters: anything after it (the conversion itself) need not be evaluable
+                    done, value = True, f"<returns: {ex}>"
+                raised = done and value == RAISED
+                if must_raise:
+                    rep.check(rid, f"{q}:{label.split(' (')[0]}", raised,
+                              f"{q} hands back a bare number for {label}: its guard lets a quantity that still has a dimension through "
+                              "(an operation on quantities must never yield a number)", fi.where())
+                else:
+                    rep.ok(rid, f"{q}:{label}", note="raises" if raised else "returns a number")
+    return n
+
+
 def comparison_runs(prog: Program, resolver: Resolver, qual: str) -> List[Tuple[str, Run, QuantV, AV]]:
     out = []
     me = quant_atom("self")
